@@ -545,6 +545,21 @@ func vC05GenHist(r *vRng) vSx {
 			if len(sh.props) > 0 && r.chance(1, 3) {
 				key = sh.props[r.intn(len(sh.props))].key // replace an existing key
 			}
+			// A rejected or damaged decode can leave REPEATED keys in a container; Set on such a key
+			// stores one object under several properties (aliasing), which the object-graph model
+			// excludes (kit level_note): never generate it.
+			occ := func(k []byte) int {
+				c := 0
+				for _, p := range sh.props {
+					if string(p.key) == string(k) {
+						c++
+					}
+				}
+				return c
+			}
+			for try := 0; occ(key) > 1; try++ {
+				key = []byte(fmt.Sprintf("u%d_%d", i, try))
+			}
 			v := vC05GenHistValue(r)
 			ops = append(ops, vL(vZ(1), vC05PathSx(path), vB(key), vC05ToSx(v)))
 			vC05ShadowSet(sh, key, vC05AfterSets(v))
